@@ -71,6 +71,12 @@ class Launcher:
         CALLS.append(("launch", self.who, tuple(c.name for c in node_configs)))
         if self.fail_at == "launch":
             raise exceptions.LaunchError("node did not start")
+        if self.fail_at == "launch-process-gone":
+            # Elasticsearch wrote its pid file and died at once: attaching telemetry to the pid fails with an exception of a
+            # third-party library (it can be pickled but not unpickled)
+            import psutil
+
+            raise psutil.NoSuchProcess(4711)
         return [Node(c.name) for c in node_configs]
 
     def stop(self, nodes, metrics_store):
@@ -433,7 +439,7 @@ def node_start_stop(sl):
     ip = "10.0.0.2"
     nn = concrete(fresh_int("nodes_on_this_host", 1, 2))
     CREATE_IDS[(ip, 9200)] = list(range(nn))
-    fail = [None, "supply", "prepare", "launch"][concrete(fresh_int("start_fails_at", 0, 3))]
+    fail = [None, "supply", "prepare", "launch", "launch-process-gone"][concrete(fresh_int("start_fails_at", 0, 4))]
     if fail:
         FAIL[ip] = fail
     preserve = bool(fresh_bool("preserve_install"))
@@ -800,7 +806,7 @@ HARNESSES = [
             bounds={"awaited daemons": "any non-empty subset of two", "update": "joined / left, about an awaited, an already joined or an unrelated host"},
             doc="daemon joins and departures in every dispatcher state"),
     Harness("node_start_stop", node_start_stop, "symbolic", lambda tier: [{"stop": h} for h in ("StopNodes", "ActorExitRequest")], reads=READS, stubs=STUBS,
-            bounds={"nodes per host": "1..2", "start failure": "none / supply / provision / launch"}, doc="node start, failure reporting, stop order, stop exactly once"),
+            bounds={"nodes per host": "1..2", "start failure": "none / supply / provision / launch / launch with a third-party exception (psutil.NoSuchProcess)"}, doc="node start, failure reporting, stop order, stop exactly once"),
     Harness("launcher_stop", launcher_stop, "bounded-exhaustive", lambda tier: [{"nodes": 1}, {"nodes": 2}], reads=READS,
             stubs=["psutil (process alive / gone / vanishing on terminate / needing a kill / vanishing on kill)", "telemetry recorder", "stop watch"],
             bounds={"nodes": "1..2", "fate per process": 5, "metrics store": "given or not"}, doc="ProcessLauncher.stop: every node exactly once, system metrics in any case"),
